@@ -8,7 +8,7 @@
      sigma/processing/transformations/base.py  the loops that call the gates
    for detection rules (SigmaRule) and the transformations set_state, change_logsource,
    set_custom_attribute, set_value, field_name_suffix, field_name_prefix, field_name_mapping.
-   Definitions only; the code as it is today (after the two fix: commits of branch wC13). *)
+   Definitions only; the code as it is today (branch wC13 merged with main). *)
 From Coq Require Import NArith ZArith List Bool.
 From PS Require Import Base.Chars Base.Outcome Model.PipeExpr.
 Import ListNotations.
@@ -590,8 +590,9 @@ Definition rename_item (it : item) (ps : pstate) (d : ditem) : outcome (option d
       match m with
       | MOne t => Ok (Some (DLeaf (mark (i_id it)
                      {| d_field := Some t; d_vals := d_vals d1; d_applied := d_applied d1 |})), ps1)
-      | MMany l => Ok (Some (DNode (map (fun t => DLeaf
-                     {| d_field := Some t; d_vals := d_vals d1; d_applied := [i_id it] |}) l)), ps1)
+      | MMany l => (* the copies inherit the marks of the replaced item; apply_detection then marks each copy *)
+                   Ok (Some (DNode (map (fun t => DLeaf (mark (i_id it)
+                     {| d_field := Some t; d_vals := d_vals d1; d_applied := d_applied d1 |})) l)), ps1)
       end
     else Ok (if refm then Some (DLeaf (mark (i_id it) d1)) else None, ps1))
   end).
